@@ -169,6 +169,13 @@ def esc2(ctx: Ctx) -> None:
                         ctx.R.ok("ESC-2", f"{mod.name}.{q}: {norm(c)[:60]}", "receiver is an object this function created itself")
                     else:
                         ctx.R.fail("ESC-2", mod, c, f"`.{c.func.attr}()` is called on an object that stackscope did not create itself: resuming/closing an extraction target changes its subsequent behaviour")
+                elif isinstance(c.func, ast.Attribute) and c.func.attr in ("exception", "result", "set_result", "set_exception", "cancel", "uncancel") and not c.args \
+                        and isinstance(c.func.value, ast.Name) and c.func.value.id in [a.arg for a in fn.args.args] and c.func.value.id not in fresh:
+                    # future / task protocol on an object handed to a hook: .exception() / .result() mark the failure as retrieved,
+                    # cancel() changes the task
+                    n += 1
+                    ctx.R.fail("ESC-2", mod, c, f"`.{c.func.attr}()` is called on `{c.func.value.id}`, an object of the observed program handed to this hook: on a task / future it changes its state "
+                               "(a failed task's exception counts as retrieved: the loop's 'exception was never retrieved' report is lost; cancel() cancels it)")
                 elif isinstance(c.func, ast.Name) and c.func.id in ("next", "anext"):
                     n += 1
                     a0 = c.args[0] if c.args else None
